@@ -45,9 +45,30 @@ def _stiff_row_world(rng, seed, index):
     return gen.base_world(seed, ID, index, spec, x0, np.zeros(1), kw, obs=gen.gen_obs(rng), case={"faulted": False, "pts_seed": 0})
 
 
+def _astronomic_world(rng, seed, index):
+    """Everything lives at |x| ~ 1e20: finite bounds of that size (the solver's "infinity" conventions start
+    around there) and a linear term that drives the first steps right up to them."""
+    import numpy as np
+
+    n = int(rng.integers(2, 5))
+    M = np.round(rng.normal(size=(n, n)), 2)
+    Q = np.round(M @ M.T + np.eye(n), 4)
+    q = np.round(rng.normal(size=n) * 2, 2) * 1e20
+    xl = -np.array([float(rng.choice([1e20, 3e20])) for _ in range(n)])
+    xu = np.array([float(rng.choice([1e20, 3e20])) for _ in range(n)])
+    spec = dict(family="astronomic", n=n, m=0, Q=Q, q=q, a=np.zeros(n), A=np.zeros((0, n)), B=np.zeros((0, n)), b=np.zeros(0), xl=xl, xu=xu, cl=np.zeros(0), cu=np.zeros(0), dom=None, expo=None, policy="fresh", fmt=str(rng.choice(["coo", "csr", "csc"])))
+    kw = {"iteration_limit": int(rng.choice([10, 30])), "display_interval": 1e18}
+    if rng.random() < 0.5:
+        kw["newton_type"] = str(rng.choice(["Simplified", "Full", "ActiveSet"]))
+    return gen.base_world(seed, ID, index, spec, np.zeros(n), np.zeros(0), kw, obs=gen.gen_obs(rng), case={"faulted": False, "pts_seed": 0})
+
+
 def generate(rng, seed, index, tier):
-    if rng.random() < 0.03:
+    u0 = rng.random()
+    if u0 < 0.03:
         return _stiff_row_world(rng, seed, index)
+    if u0 < 0.05:
+        return _astronomic_world(rng, seed, index)
     fam = str(rng.choice(["qp", "nlp", "degenerate", "domain", "infeasible", "saddle"], p=[0.25, 0.25, 0.05, 0.25, 0.05, 0.15]))
     spec, x0, y0 = gen.gen_problem(rng, fam, fixed_prob=0.4)
     x0 = gen.magnify(rng, spec, x0, p=0.1)
